@@ -74,23 +74,39 @@ func HarnessC14Plain() {
 		svAssume(c != 0)
 	}
 	mech := svPick("mech", 3) // 0 PLAIN, 1 LOGIN, 2 XOAUTH2
-	s := hxNewSrv([]string{"AUTH PLAIN LOGIN XOAUTH2"})
-	s.onlyOK = true
-	sc := &hxAuthScript{}
-	s.authFn = sc.handle
-	c := hxNewSMTPClient(s)
+	// the same Auth object may have been used before: 0 fresh, 1 an earlier
+	// exchange that the server rejected at its last step, 2 an earlier accepted
+	// exchange (re-authentication on a new connection)
+	reuse := svPick("auth-object-history", 3)
 	var a Auth
+	var script []string
 	switch mech {
 	case 0:
-		sc.replies = []string{"235 2.7.0 ok"}
+		script = []string{"235 2.7.0 ok"}
 		a = PlainAuth("", string(user), string(pass), "mail.example", true)
 	case 1:
-		sc.replies = []string{"334 VXNlcm5hbWU6", "334 UGFzc3dvcmQ6", "235 2.7.0 ok"}
+		script = []string{"334 VXNlcm5hbWU6", "334 UGFzc3dvcmQ6", "235 2.7.0 ok"}
 		a = LoginAuth(string(user), string(pass), "mail.example", true)
 	default:
-		sc.replies = []string{"235 2.7.0 ok"}
+		script = []string{"235 2.7.0 ok"}
 		a = XOAuth2Auth(string(user), string(pass))
 	}
+	if reuse > 0 {
+		s0 := hxNewSrv([]string{"AUTH PLAIN LOGIN XOAUTH2"})
+		s0.onlyOK = true
+		sc0 := &hxAuthScript{replies: append([]string{}, script...)}
+		if reuse == 1 {
+			sc0.replies[len(sc0.replies)-1] = "535 5.7.8 authentication credentials invalid"
+		}
+		s0.authFn = sc0.handle
+		err0 := hxNewSMTPClient(s0).Auth(a)
+		svAssert((err0 == nil) == (reuse == 2), "C14 earlier exchange: outcome differs from the server's verdict")
+	}
+	s := hxNewSrv([]string{"AUTH PLAIN LOGIN XOAUTH2"})
+	s.onlyOK = true
+	sc := &hxAuthScript{replies: script}
+	s.authFn = sc.handle
+	c := hxNewSMTPClient(s)
 	err := c.Auth(a)
 	svAssert(err == nil, "C14 honest exchange failed")
 	if err != nil {
